@@ -123,9 +123,10 @@ package foreach
 //
 // ---- the loop itself (C13) ----
 //@ func (*runningStep).enableStage
+//@   site call Unlock#1 assert [a-step-that-lacks-its-enabling-input-reports-waiting-for-input] r.enabledInputAvailable || r.currentState == step.RunningStepStateWaitingForInput
 //@   opt goroutine run
 //@   requires wfstep(r) && nolocks() && reported(step.RunningStep(r), "disabled") != 1
-//@   modifies ghost reported
+//@   modifies r.currentState, ghost reported
 //@   ensures result1 ==> ctxdone(r.ctx)
 //@   ensures !result1 && result ==> reported(step.RunningStep(r), "disabled") == 2
 //@   ensures forall s step.RunningStep, g string :: (s != step.RunningStep(r) || g != "disabled") ==> reported(s, g) == old(reported(s, g))
